@@ -303,6 +303,11 @@ class dbmlobject_dbml:
     ret = 'str'
     allowed = REFUSALS
 
+    def requires_typed_column(self):
+        # a column without a type is outside the typed model (the SQL side refuses it with AttributeMissingError;
+        # the DBML column renderer has nothing to write for it)
+        return not isinstance(self, Column) or self.type is not None
+
     def returns(self):
         return dbml_of(self)
 
